@@ -1,9 +1,11 @@
 package sim
 
 import (
+	"bytes"
 	"context"
 	"errors"
 	"fmt"
+	"io"
 	"time"
 
 	"github.com/bool64/cache"
@@ -98,6 +100,8 @@ type beBackend struct {
 	// expiredItem extracts value and expiry from an expiration error.
 	expiredItem func(err error) (interface{}, time.Time, bool)
 	wdr         cache.WalkDumpRestorer
+	dump        func(w io.Writer) (int, error)
+	restore     func(r io.Reader) (int, error)
 	raw         interface{}
 }
 
@@ -107,7 +111,7 @@ func newBackend(kind string, cfg cache.Config) beBackend {
 		m := cache.NewSyncMap(cfg.Use)
 
 		return beBackend{
-			raw: m, wdr: m,
+			raw: m, wdr: m, dump: m.Dump, restore: m.Restore,
 			read:   func(ctx context.Context, k []byte) (interface{}, error) { return m.Read(ctx, k) },
 			write:  func(ctx context.Context, k []byte, v Tok) error { return m.Write(ctx, k, v) },
 			del:    m.Delete,
@@ -128,7 +132,7 @@ func newBackend(kind string, cfg cache.Config) beBackend {
 		m := cache.NewShardedMapOf[Tok](cfg.Use)
 
 		return beBackend{
-			raw: m, wdr: m.WalkDumpRestorer(),
+			raw: m, wdr: m.WalkDumpRestorer(), dump: m.Dump, restore: m.Restore,
 			read:   func(ctx context.Context, k []byte) (interface{}, error) { return m.Read(ctx, k) },
 			write:  func(ctx context.Context, k []byte, v Tok) error { return m.Write(ctx, k, v) },
 			del:    m.Delete,
@@ -155,7 +159,7 @@ func newBackend(kind string, cfg cache.Config) beBackend {
 		m := cache.NewShardedMap(cfg.Use)
 
 		return beBackend{
-			raw: m, wdr: m,
+			raw: m, wdr: m, dump: m.Dump, restore: m.Restore,
 			read:   func(ctx context.Context, k []byte) (interface{}, error) { return m.Read(ctx, k) },
 			write:  func(ctx context.Context, k []byte, v Tok) error { return m.Write(ctx, k, v) },
 			del:    m.Delete,
@@ -190,6 +194,7 @@ type beRun struct {
 	logs  []logRec
 
 	janitor    *zs.Task
+	setupDump  []byte
 	evictCalls int
 	needCalls  []int64 // unix ns of each EvictionNeeded call
 }
@@ -342,6 +347,12 @@ func (r *beRun) exec(ci, oi int, op *BEOp) *beRec {
 
 				return nil
 			})
+		case "dump":
+			var buf bytes.Buffer
+
+			rec.n, rec.err = r.bk.dump(&buf)
+		case "restore":
+			rec.n, rec.err = r.bk.restore(bytes.NewReader(r.setupDump))
 		case "load":
 			rec.val, rec.ok = r.bk.load(kb)
 		case "store":
@@ -412,6 +423,19 @@ func runBE(e *env) {
 
 	switch r.sc.Mode {
 	case "seq", "conc":
+		for i := range r.sc.Root {
+			time.Sleep(1)
+			r.exec(-1, i, &r.sc.Root[i])
+		}
+
+		if len(r.sc.Root) > 0 {
+			var buf bytes.Buffer
+
+			_, _ = r.bk.dump(&buf)
+			r.setupDump = buf.Bytes()
+			r.recs = nil
+		}
+
 		r.spawnClients()
 		ok = e.runAll("")
 		e.checkPanics()
